@@ -150,6 +150,7 @@ type connModel struct {
 	giveUp          bool // model lost track (rare ambiguous instants): strict checks stop at giveUpAt
 	giveUpAt        Stamp
 	giveUpWhy       string
+	between         bool    // the observations end between two connections (a reconnect exchange that had not come to its end)
 	connReqTx       []Stamp // first transmissions of connect attempts
 }
 
@@ -383,9 +384,14 @@ func buildConnModel(v *tunView) *connModel {
 	if mode == mdConnecting && len(m.epochs) > 0 && m.term == nil && attempt != nil {
 		// a reconnect exchange that never got its answer: the tunnel terminates T after its start
 		dead := Stamp{T: attempt.T + r.c.T, Seq: ^uint64(0) >> 1}
-		if (m.closeInv == nil || dead.T+v.eps < m.closeInv.T) && r.h.Settled.T > dead.T+v.eps {
+		// (only what was injected while this exchange was under way can move its time-out)
+		w := r.e.EpsIn(attempt.T, dead.T)
+		if (m.closeInv == nil || dead.T+w < m.closeInv.T) && r.h.Settled.T > dead.T+w {
 			m.term, m.termWhy = &dead, "reconnect-timeout"
 		}
+	}
+	if mode == mdConnecting && len(m.epochs) > 0 && m.term == nil {
+		m.between = true
 	}
 	if cur != nil && m.closeInv != nil {
 		cur.End, cur.EndWhy = *m.closeInv, "close"
@@ -651,10 +657,87 @@ func checkC03(v *tunView, m *connModel) {
 				if ackedBy(q, x.At) {
 					continue // an earlier acknowledgement is being consumed
 				}
+				if q.call.Done && q.call.OK && q.call.Ret.T <= x.At.T+eps {
+					// the hand-over of this acknowledgement was held up (within the slack) and an
+					// acknowledgement with status OK for the same request came in meanwhile: that one won
+					overtaken := false
+					for _, y := range v.rx {
+						if y.At.Seq > x.At.Seq && y.At.Seq <= q.call.Ret.Seq && y.F.OK && y.F.Svc == svcTunnelRes && y.F.Status == 0 && y.F.Channel == q.ch && y.F.Seq == q.seq {
+							overtaken = true
+						}
+					}
+					if overtaken {
+						e.Probe("error-ack-overtaken-by-ok-ack")
+						continue
+					}
+				}
 				if !q.call.Done || q.call.Ret.T > x.At.T+eps || q.call.OK {
 					e.Violate("C03", "error-ack-not-failing-send", "acknowledgement {ch=%d seq=%d status=%#x} was read at %v while Send id=%d was waiting for exactly that acknowledgement; the Send returned at %v with ok=%v", x.F.Channel, x.F.Seq, x.F.Status, x.At.T, q.call.ID, q.call.Ret.T, q.call.OK)
 				}
 				e.Probe("error-ack-while-waiting")
+			}
+		}
+	}
+	// A Send ends for a reason: success, its response timeout, a matching acknowledgement with an
+	// error status, a write that failed, or the end of the tunnel. Anything else that arrives while it
+	// waits (acknowledgements for another channel or number, other services) is ignored.
+	if !m.giveUp {
+		for _, q := range order {
+			if !q.call.Done || q.call.OK {
+				continue
+			}
+			ret := q.call.Ret
+			if ret.T >= q.at[0].T+c.T-eps {
+				continue // the response timeout
+			}
+			if m.term != nil && m.term.T <= ret.T+eps || m.closeInv != nil && m.closeInv.T <= ret.T+eps || m.between && m.epochAt(ret) == nil {
+				continue // the tunnel ended (or may have)
+			}
+			cause := false
+			for _, y := range v.tx {
+				if y.Werr && y.At.Seq >= q.at[0].Seq && y.At.Seq <= ret.Seq {
+					cause = true // a write failed while it was under way
+				}
+			}
+			for _, y := range v.rx {
+				if y.At.Seq > ret.Seq || !y.F.OK || y.F.Svc != svcTunnelRes || y.F.Status == 0 || y.F.Seq != q.seq {
+					continue
+				}
+				took := y.At.T // when the receive loop can have taken it in, as far as the model knows
+				if ep := m.epochAt(y.At); ep == nil {
+					took = ret.T
+				} else if ep.StallUntil > took {
+					took = ep.StallUntil
+				}
+				if took >= q.at[0].T-c.R-eps {
+					// an acknowledgement with an error status and the request's number (whatever epoch its
+					// channel belongs to; one read shortly before the request left is still on offer)
+					cause = true
+				}
+			}
+			if len(q.at) == 0 || cause {
+				continue
+			}
+			e.Violate("C03", "send-failed-without-cause", "Send id=%d (channel %d, seq %d, first transmitted %v) failed at %v with %q: before its response timeout (%v), with the tunnel alive, no write failed and no acknowledgement with an error status for its number read meanwhile", q.call.ID, q.ch, q.seq, q.at[0].T, ret.T, q.call.Err, c.T)
+		}
+		// ... and every Send ends: those queued behind it wait at most one response timeout each
+		// (every sending goroutine has one Send under way at a time, so that is how long the queue gets)
+		n := c.Senders + 1
+		until := r.h.Settled // ... while the tunnel is there
+		if m.term != nil && m.term.T < until.T {
+			until = *m.term
+		}
+		if m.closeInv != nil && m.closeInv.T < until.T {
+			until = *m.closeInv
+		}
+		for _, sc := range all {
+			if sc.Done {
+				continue
+			}
+			bound := sc.Inv.T + time.Duration(n+2)*(c.T+c.R+eps)
+			if until.T > bound {
+				e.Violate("C03", "send-never-returned", "Send id=%d invoked at %v had not returned at %v (%d goroutines send, response timeout %v): a Send waits for those before it, each for its response timeout at most", sc.ID, sc.Inv.T, until.T, c.Senders, c.T)
+				break
 			}
 		}
 	}
